@@ -4,7 +4,10 @@ use crate::streaming::storage::TopicStorage;
 use crate::streaming::topics::consumer_group::ConsumerGroup;
 use crate::streaming::topics::topic::Topic;
 use crate::streaming::topics::COMPONENT;
+#[cfg(not(kani))]
 use ahash::AHashSet;
+#[cfg(kani)]
+use iggy::verif_model::map::AHashSet;
 use anyhow::Context;
 use error_set::ErrContext;
 use futures::future::join_all;
@@ -14,9 +17,20 @@ use iggy::locking::IggySharedMutFn;
 use serde::{Deserialize, Serialize};
 use std::path::Path;
 use std::sync::Arc;
+#[cfg(not(kani))]
 use tokio::fs;
+#[cfg(kani)]
+use iggy::verif_model::shim::fs;
+#[cfg(kani)]
+use iggy::verif_model::shim as tokio;
+#[cfg(not(kani))]
 use tokio::fs::create_dir_all;
+#[cfg(kani)]
+use iggy::verif_model::fs::create_dir_all;
+#[cfg(not(kani))]
 use tokio::sync::{Mutex, RwLock};
+#[cfg(kani)]
+use iggy::verif_model::lock::{Mutex, RwLock};
 use tracing::{error, info, warn};
 
 #[derive(Debug)]
